@@ -130,7 +130,7 @@ impl Driver for C17 {
         "C17"
     }
     fn units(&self, tier: Tier) -> usize {
-        tier.pick(64, 1600)
+        tier.pick(1600, 32000)
     }
     fn run_unit(&self, ctx: &Ctx, out: &mut UnitOut, _start: usize, only: Option<usize>) {
         let mut rng = unit_rng(ctx, "C17", out.unit);
@@ -198,16 +198,16 @@ impl Driver for C17 {
     fn thresholds(&self, _tier: Tier) -> Thresholds {
         Thresholds {
             min_tags: vec![
-                ("held", 1000),
-                ("mixed-named-unnamed-rows", 100),
-                ("free-variable", 100),
-                ("zero-row", 50),
-                ("nonzero-offset", 100),
-                ("binary", 100),
-                ("general-integer", 100),
-                ("satisfy", 50),
+                ("held", 100000),
+                ("mixed-named-unnamed-rows", 10000),
+                ("free-variable", 10000),
+                ("zero-row", 5000),
+                ("nonzero-offset", 10000),
+                ("binary", 10000),
+                ("general-integer", 10000),
+                ("satisfy", 5000),
             ],
-            min_nontrivial: 1000,
+            min_nontrivial: 100000,
         }
     }
     fn assumptions(&self) -> Vec<String> {
